@@ -331,7 +331,100 @@ func zzOracleC05(in string) string {
 	return ""
 }
 
+// C10: changing the case of ASCII letters outside the exempt positions (after a backslash, next
+// to a single quote; inputs with '$' or a case-variant of sp_password are skipped) changes
+// neither the verdict nor the fingerprint
+func zzCaseVariants(in string, exempt func(i int) bool) []string {
+	flip := func(c byte) byte {
+		if c >= 'a' && c <= 'z' {
+			return c - 32
+		}
+		if c >= 'A' && c <= 'Z' {
+			return c + 32
+		}
+		return c
+	}
+	var out []string
+	mk := func(f func(i int, c byte) byte) {
+		b := []byte(in)
+		for i := range b {
+			if !exempt(i) {
+				b[i] = f(i, b[i])
+			}
+		}
+		out = append(out, string(b))
+	}
+	mk(func(i int, c byte) byte { return flip(c) })
+	mk(func(i int, c byte) byte {
+		if c >= 'a' && c <= 'z' {
+			return c - 32
+		}
+		return c
+	})
+	mk(func(i int, c byte) byte {
+		if c >= 'A' && c <= 'Z' {
+			return c + 32
+		}
+		return c
+	})
+	mk(func(i int, c byte) byte {
+		if i%2 == 0 {
+			return flip(c)
+		}
+		return c
+	})
+	for k := 0; k < len(in) && k < 64; k++ {
+		kk := k
+		mk(func(i int, c byte) byte {
+			if i == kk {
+				return flip(c)
+			}
+			return c
+		})
+	}
+	return out
+}
+
+func zzOracleC10(in string) string {
+	if strings.Contains(in, "$") || strings.Contains(strings.ToLower(in), "sp_password") {
+		return ""
+	}
+	exempt := func(i int) bool {
+		return (i >= 1 && (in[i-1] == '\\' || in[i-1] == '\'')) || (i+1 < len(in) && in[i+1] == '\'')
+	}
+	v0, f0 := IsSQLi(in)
+	for _, w := range zzCaseVariants(in, exempt) {
+		v1, f1 := IsSQLi(w)
+		if v0 != v1 || f0 != f1 {
+			return fmt.Sprintf("IsSQLi(%q) = (%v,%q) but IsSQLi(%q) = (%v,%q)", in, v0, f0, w, v1, f1)
+		}
+	}
+	return ""
+}
+
+// C11 (case part): changing the case of ASCII letters never changes the IsXSS verdict (letters of
+// a case-variant of [CDATA[ are held fixed)
+func zzOracleC11(in string) string {
+	up := strings.ToUpper(in)
+	exempt := func(i int) bool {
+		for j := i - 5; j <= i-1; j++ {
+			if j >= 0 && j+7 <= len(up) && up[j:j+7] == "[CDATA[" {
+				return true
+			}
+		}
+		return false
+	}
+	x0 := IsXSS(in)
+	for _, w := range zzCaseVariants(in, exempt) {
+		if x1 := IsXSS(w); x0 != x1 {
+			return fmt.Sprintf("IsXSS(%q) = %v but IsXSS(%q) = %v", in, x0, w, x1)
+		}
+	}
+	return ""
+}
+
 var zzOracles = map[string]func(string) string{
+	"C10": zzOracleC10, "C11": zzOracleC11,
 	"C05": zzOracleC05, "C08": zzOracleC08, "C12": zzOracleC12, "C13": zzOracleC13, "C15": zzOracleC15,
 	"C16": zzOracleC16, "C17": zzOracleC17, "C18": zzOracleC18, "C19": zzOracleC19,
 }
